@@ -148,8 +148,51 @@ def run_stats(p):
     torch.set_default_dtype(torch.float64)
     try:
         vals, m, case = p["values"], p["m"], p["case"]
-        xs = torch.tensor([_v(vals, f"x{i}") for i in range(m)], dtype=torch.float64)
+        cols = p.get("cols", 1)
+        xs = torch.tensor([_v(vals, f"x{i}") for i in range(m * cols)], dtype=torch.float64)
+        if cols > 1:
+            xs = xs.reshape(m, cols)
         out = {}
+        if case == "warmup":
+            from rl4co.models.rl.reinforce import baselines as bl
+
+            bad = []
+            for n_epochs in (1, 2, 3):
+                class Inner(bl.REINFORCEBaseline):
+                    def eval(self, td, reward, env=None):
+                        return torch.tensor(7.0), torch.tensor(3.0)
+
+                wb = bl.WarmupBaseline(Inner(), n_epochs=n_epochs, warmup_exp_beta=0.8)
+                r = torch.tensor([1.0, 2.0])
+                for epoch in range(-1, n_epochs + 2):
+                    if epoch >= 0:
+                        wb.epoch_callback(None, epoch=epoch)
+                    alpha = 0 if epoch < 0 else min(1.0, (epoch + 1) / n_epochs)
+                    if abs(float(wb.alpha) - alpha) > 1e-9:
+                        bad.append(f"n_epochs={n_epochs}: weight after epoch {epoch} is {float(wb.alpha)}, expected {alpha}")
+                    wb.warmup_baseline.v = None
+                    v, l = wb.eval(None, r)
+                    ev = alpha * 7.0 + (1 - alpha) * 1.5
+                    el = alpha * 3.0
+                    if abs(float(v) - ev) > 1e-6 or abs(float(l) - el) > 1e-6:
+                        bad.append(f"n_epochs={n_epochs} epoch {epoch}: value {float(v)} / loss {float(l)} is not the convex combination {ev} / {el}")
+            return {"violations": bad[:3]}
+        if case == "ema":
+            from rl4co.models.rl.reinforce import baselines as bl
+
+            beta = _v(vals, "beta", 0.8)
+            b = bl.ExponentialBaseline(beta=beta)
+            bad, vprev = [], None
+            for step in range(3):
+                r = torch.tensor([_v(vals, f"r{step}_{i}", float(i + step)) for i in range(m)], dtype=torch.float64, requires_grad=True)
+                v, loss = b.eval(None, r)
+                ref = float(r.mean()) if vprev is None else beta * vprev + (1 - beta) * float(r.mean())
+                if abs(float(v) - ref) > 1e-6:
+                    bad.append(f"step {step}: v={float(v)} != beta*v+(1-beta)*mean={ref}")
+                if getattr(v, "requires_grad", False):
+                    bad.append(f"step {step}: the stored baseline value still requires grad")
+                vprev = ref
+            return {"violations": bad[:3]}
         if case.startswith("welford") or case.startswith("scale"):
             kind = {"scale_norm": "norm", "scale_scale": "scale", "scale_int": 4, "scale_none": None}.get(case, "norm")
             sc = RewardScaler(kind)
@@ -169,7 +212,7 @@ def run_stats(p):
             if case.startswith("welford"):
                 sc.update(xs)
             else:
-                out["output"] = [float(x) for x in sc(xs.clone())]
+                out["output"] = sc(xs.clone()).tolist()
             if kind not in (None, 4):
                 out.update(count=int(sc.count), mean=float(sc.mean), M2=float(sc.M2))
         return out
